@@ -237,3 +237,86 @@ class FMGetFeatures:
 
     def post(self, result):
         return result == feats(self)
+
+
+@contract(FM, 'FeatureModel.get_feature_by_name', prop='C03')
+class FMGetFeatureByName:
+    def pre(self, feature_name):
+        return wf()
+
+    def post_lookup(self, feature_name, result):
+        return ((result is None and not any(f.name == feature_name for f in feats(self)))
+                or (result is not None and result.name == feature_name and any(same(f, result) for f in feats(self))))
+
+
+@contract(FM, 'FeatureModel.get_mandatory_features', prop='C03')
+class FMGetMandatory:
+    def pre(self):
+        return wf()
+
+    def post(self, result):
+        return result == [f for f in feats(self) if feature_class(f) == MAND]
+
+
+@contract(FM, 'FeatureModel.get_optional_features', prop='C03')
+class FMGetOptional:
+    def pre(self):
+        return wf()
+
+    def post(self, result):
+        return result == [f for f in feats(self) if feature_class(f) == OPT]
+
+
+@contract(FM, 'FeatureModel.get_alternative_group_features', prop='C03')
+class FMGetAltGroups:
+    def pre(self):
+        return wf()
+
+    def post(self, result):
+        return result == [f for f in feats(self) if any(rclass(r) == ALT for r in f.relations)]
+
+
+@contract(FM, 'FeatureModel.get_or_group_features', prop='C03')
+class FMGetOrGroups:
+    def pre(self):
+        return wf()
+
+    def post(self, result):
+        return result == [f for f in feats(self) if any(rclass(r) == OR_ for r in f.relations)]
+
+
+@contract(FM, 'FeatureModel.get_boolean_features', prop='C03')
+class FMGetBoolean:
+    def pre(self):
+        return wf()
+
+    def post(self, result):
+        return result == [f for f in feats(self) if f.feature_type == FeatureType.BOOLEAN]
+
+
+@contract(FM, 'FeatureModel.get_numerical_features', prop='C03')
+class FMGetNumerical:
+    def pre(self):
+        return wf()
+
+    def post(self, result):
+        return result == [f for f in feats(self)
+                          if f.feature_type == FeatureType.INTEGER or f.feature_type == FeatureType.REAL]
+
+
+@contract(FM, 'FeatureModel.get_string_features', prop='C03')
+class FMGetString:
+    def pre(self):
+        return wf()
+
+    def post(self, result):
+        return result == [f for f in feats(self) if f.feature_type == FeatureType.STRING]
+
+
+@contract(FM, 'FeatureModel.get_constraints', prop='C03')
+class FMGetConstraints:
+    def pre(self):
+        return wf()
+
+    def post(self, result):
+        return result == self.ctcs
